@@ -2,7 +2,8 @@
    eval  = environment-passing big-step semantics (coq/C01/Spec.v), eval_spec := eval cart  (the FEEL semantics);
    run   = the evaluator as a scope-stack machine (coq/C01/Impl.v),   run_impl  := run cart_impl (the code as it is). *)
 From Coq Require Import List ZArith NArith Bool.
-From DV Require Import C01.Syntax C01.Spec C01.Impl C01.Proofs.
+From DV Require Import C01.Syntax C01.Spec C01.Impl C01.Proofs C01.Types.
+From DV Require C16.Model C16.Proofs.
 Import ListNotations.
 Open Scope Z_scope.
 
@@ -48,6 +49,17 @@ Theorem C01_quantifiers_orig_refuted :
   quant_some_orig [VNull] <> fold_left or3 [VNull] (VBool false) /\ quant_every_orig [VNull] <> fold_left and3 [VNull] (VBool true).
 Proof. exact quantifiers_orig_refuted. Qed.
 
+(* arguments are coerced to the declared parameter types by the coercion proved in C16: the abstraction `abs` of evaluator
+   values onto the values of coq/C16/Model.v commutes with type_of and with coerced, so C16's theorems hold of the evaluator *)
+Theorem C01_type_of_is_C16 : forall v, C16.Model.type_of (abs v) = type_of1 v.
+Proof. exact type_of_abs. Qed.
+Theorem C01_argument_coercion_is_C16 : forall t v, poison v = false -> abs (coerced1 t v) = C16.Model.coerced t (abs v).
+Proof. exact coerced_abs. Qed.
+Theorem C01_coerced_argument_conforms_or_null : forall t v,
+  C16.Proofs.wf t = true -> C16.Proofs.wfv (abs v) = true -> poison v = false ->
+  abs (coerced1 t v) = C16.Model.VNull \/ C16.Model.conformant (type_of1 (coerced1 t v)) t = true.
+Proof. exact coerced1_conforms_or_null. Qed.
+
 Example C01_nonvacuous :
   run_impl 20 [[(101%N, VNum 2)]] (EFor [(102%N, DList (EList [ENum 1; ENum 2])); (103%N, DRange (ENum 1) (ENum 2))]
          (EBin Add (EBin Mul (EName 102%N) (EName 101%N)) (EFilter (ECtx [(104%N, EName 103%N)]) (EBin Eq (EName 104%N) (ENum 1)))))
@@ -69,4 +81,7 @@ Print Assumptions C01_every_empty.
 Print Assumptions C01_some_is_or_fold.
 Print Assumptions C01_every_is_and_fold.
 Print Assumptions C01_quantifiers_orig_refuted.
+Print Assumptions C01_type_of_is_C16.
+Print Assumptions C01_argument_coercion_is_C16.
+Print Assumptions C01_coerced_argument_conforms_or_null.
 Print Assumptions C01_nonvacuous.
